@@ -500,7 +500,7 @@ namespace Givaro {
 	typedef typename ExtensionField::PolElement Element;
 	typedef typename ExtensionField::Residu_t Residu_t;
 
-            /** Constructor from field, sampling size, and seed.
+            /** Constructor from field, seed, and sampling size.
              * The random field Element iterator works in the field F, is seeded
              * by seed, and it returns any one Element with probability no more
              * than 1/min(size, F.cardinality()).
@@ -515,13 +515,15 @@ namespace Givaro {
              *             generator (default = 0)
              */
 	GIV_ExtensionrandIter(const  ExtensionField& F,
-			      const Type& size = 0,
-			      const Type& seed = 0) :
+			      const Type& seed = 0,
+			      const Type& size = 0) :
 	       	_size(size), _givrand( GivRandom(seed) ), _field(F)
             {
-		Type charact    = Type( F.characteristic() );
-		if ((_size > charact) || (_size == 0) )
-                    _size = charact;
+                    // same argument order as every other random iterator (field, seed, size);
+                    // the coefficients are drawn in the base field, whose cardinality bounds the sampling size
+		Type card    = Type( F.base_field().cardinality() );
+		if ((_size > card) || (_size == 0) )
+                    _size = card;
             }
 
             /** Copy constructor.
